@@ -19,6 +19,7 @@
 (* reset when a declaration is left.  L1: Verdict(c), per container.       *)
 (* Deviations: LeakWalkState (cur survives the end of a function: a        *)
 (* package-level `var g = T{}` after the constructor is accepted),         *)
+(* PtrAliasIsValue (`var v TP` with type TP = *T reported as CTOR03),      *)
 (* PruneReported (the operands of a reported expression are not visited),  *)
 (* CtorByBareName (u's own type T with constructors NewT, MakeT exempts    *)
 (* instantiations of d.T inside u.NewT),                                   *)
@@ -39,7 +40,7 @@ Stmts  == {"lit", "addrLit", "elidedVal", "elidedPtr", "elidedMap", "new", "varZ
            "litRec", "newRec", "varRec"}   \* on d.Rec, an exported alias of the unexported type rec with `@constructor newRec` (iff T is annotated)   \* the same on T2, a second type of d with `@constructor NewT2` (iff T is annotated)
 Nests  == {"none", "if", "else", "for", "range", "switch", "select", "funclit", "defer", "go", "label",
            "funcassign", "funcvar", "funcarg", "funcfield", "block", "ifinit", "typeswitch"}
-Spells == {"direct", "alias", "alias3", "chain", "rename", "paren"}
+Spells == {"direct", "alias", "alias3", "chain", "ptralias", "rename", "paren"}   \* ptralias: type TP = *T, only for `var v TP` (a nil pointer, no instance)
 
 \* csp = which accepted spelling of the constructor list is used (1..5), semantically irrelevant
 Anns == [ctors : {<<>>, <<"NewT">>, <<"NewT", "MakeT">>}, csp : 1..5, imm : BOOLEAN]
@@ -55,6 +56,7 @@ Valid(c, pkg) ==
   /\ (c.stmt = "onU" => c.sp \in {"direct", "fnalias"})
   /\ (c.sp = "fnalias" => c.kind \in {"ctor1", "other", "init", "ometh"})
   /\ (c.sp = "paren" => c.stmt \in {"new", "varZero", "varPtr", "varBlank"})
+  /\ (c.sp = "ptralias" => c.stmt = "varPtr")
   /\ (c.sp \in {"rename", "alias3"} => pkg = "u")
 
 FnName(c) == CASE c.kind = "ctor1" -> "NewT" [] c.kind = "ctor2" -> "MakeT" [] c.kind = "init" -> "init"
@@ -145,7 +147,9 @@ VisitVerdict(c) ==
       \* package u declares a type of its own that is also called T, with constructors NewT and MakeT (TwinCtors)
       twinExempt == "CtorByBareName" \in Deviations /\ prog.pkg = "u" /\ cur \in TwinCtors
       exempt == (ownPkg /\ cur \in ctorsOfType) \/ twinExempt
-  IN IF prog.ann.ctors = <<>> \/ code = "none" \/ ~Seen(c) \/ exempt THEN "none" ELSE code
+      \* PtrAliasIsValue: a variable whose type is an alias of a pointer type is taken for an instance
+      code2 == IF "PtrAliasIsValue" \in Deviations /\ c.stmt = "varPtr" /\ c.sp = "ptralias" THEN "CTOR03" ELSE code
+  IN IF prog.ann.ctors = <<>> \/ code2 = "none" \/ ~Seen(c) \/ exempt THEN "none" ELSE code2
 
 Visit ==
   /\ ph = "visit"
